@@ -319,6 +319,9 @@ def containers(b, wide=True, exotic=True):
                 a.frombytes(b)
                 out.append(("array_" + code, a))
                 out.append(("memoryview_array_" + code, memoryview(a)))
+    for nm, ob in out[1:]:
+        if len(_ISSUED) < 60000:
+            _ISSUED.append((nm, ob, b))
     return out
 
 
@@ -411,10 +414,7 @@ _ISSUED = []      # (container name, object, the bytes it was made from): audite
 
 def pick_container(b, i, wide=True, exotic=True):
     cs = containers(b, wide, exotic)
-    pick = cs[i % len(cs)]
-    if len(_ISSUED) < 60000:
-        _ISSUED.append((pick[0], pick[1], bytes(b)))
-    return pick
+    return cs[i % len(cs)]
 
 
 def audit_issued(ctx):
